@@ -22,7 +22,8 @@ RULE = ("Hypothesis-generated envelope histories (one-sided or two-sided disjoin
         "the same trace: clean delivery vs. mangled delivery driven by a generated script (duplicate an event 2-3x, "
         "deliver a second copy later, split batches into singletons, on id-style sides hold events back and release "
         "them later in reversed order, inject id-less events and events for objects that never existed / have "
-        "vanished, interleave cs.walk() replays of either side).  Oracle: final quiet trees of the mangled run == "
+        "vanished, interleave cs.walk() replays of either side; on id-style sides also list the tree now and hand that "
+        "listing to the engine later, as stale walk events).  Oracle: final quiet trees of the mangled run == "
         "those of the clean run == expected, no '.conflicted'; per destination path the mangled run issues no more "
         "create/upload/delete calls than the clean run; injected id-less/vanished events cause no provider mutation.  "
         "Non-trivial = >=1 event actually duplicated/delayed/reordered/injected and delivered while its side had "
@@ -51,8 +52,21 @@ def gen(d, tier):
         cfg["origin"] = sides[0]
 
     def extra(d, world, acts):
-        k = d.weighted((("walk", 2), ("inject", 2)))
-        if k == "walk":
+        k = d.weighted((("walk", 2), ("inject", 2), ("walk_late", 2)))
+        if k == "walk_late":
+            # id-stable side only: list the tree now (what CloudSync.walk does), hand the listing to the engine LATER
+            pend = world.__dict__.setdefault("snap_pending", {})
+            ids = [sd for sd in (0, 1) if not world.path_style[sd]]
+            if not ids:
+                return
+            ws = d.choice(ids)
+            if ws in pend:
+                del pend[ws]
+                acts.append(["walk_late", ws])
+            else:
+                pend[ws] = True
+                acts.append(["walk_snap", ws])
+        elif k == "walk":
             ws = d.int(0, 1)
             import os
             if world.path_style[ws] and (not acts or acts[-1][0] != "settle") and os.environ.get("VERIF_FHAZARDS") != "":
@@ -68,6 +82,9 @@ def gen(d, tier):
     cfg["mode"] = mode
     acts, world = gen_history(d, cfg, sides=sides, n_ops=(3, 8) if tier == "quick" else (3, 14), with_base=True,
                               w_extra=2 if mode == "mixed" else 0, extra=extra, world_init=_strict)
+    for ws in sorted(world.__dict__.get("snap_pending", {})):
+        acts.append(["walk_late", ws])
+        acts.append(["settle"])
     script = [d.int(0, 7) for _ in range(d.int(4, 24))]
     return {"cfg": cfg, "acts": acts, "script": script, "meta": {"excluded": dict(world.excluded)}}
 
@@ -88,7 +105,9 @@ def in_domain(trace):
             dirty = True
         elif a[0] == "walk" and dirty and cfg["LR"[a[1]]] == "path":
             return False
-    acts = [a for a in trace["acts"] if a[0] not in ("walk", "inject")]
+    if any(a[0] in ("walk_snap", "walk_late") and cfg["LR"[a[1]]] == "path" for a in trace["acts"]):
+        return False
+    acts = [a for a in trace["acts"] if a[0] not in ("walk", "inject", "walk_snap", "walk_late")]
     sides = (0, 1) if "origin" not in trace["cfg"] else (trace["cfg"]["origin"],)
     return envelope_ok(dict(trace, acts=acts), sides=sides, world_init=_strict)
 
@@ -232,6 +251,20 @@ class Run(HistoryRun):
                     case.cs.walk(act[1])
                 finally:
                     case.in_engine = False
+            return
+        if act[0] == "walk_snap":
+            if self.mangle:
+                prov = case.prov[act[1]]
+                self.snaps = getattr(self, "snaps", {})
+                self.snaps[act[1]] = list(prov.walk(case.roots[act[1]]))
+            return
+        if act[0] == "walk_late":
+            snap = getattr(self, "snaps", {}).pop(act[1], None)
+            if self.mangle and snap is not None and case.cs.emgrs[act[1]]._root_validated:
+                self._watch_if_quiet(act)
+                for ev in snap:
+                    case.cs.emgrs[act[1]].queue(ev, from_walk=True)
+                self.m.stats["late_walk_events"] = self.m.stats.get("late_walk_events", 0) + len(snap)
             return
         if act[0] == "inject":
             if not self.mangle:
